@@ -28,6 +28,7 @@ impl Api {
     fn describe(&mut self, d: usize) -> String {
         match self {
             Api::Arena(ar, regs) => {
+                if !arena_safe(ar, regs) { return "MALFORMED-TABLE".to_string(); }
                 let h = regs[d].unwrap();
                 let sets: Vec<Vec<u32>> = ar.iter(h).collect();
                 let c = ar.count(h);
@@ -60,6 +61,26 @@ impl Api {
             _ => None,
         }
     }
+    /// standalone API: root ref and node count of every register (ids are deterministic: append order)
+    fn zdump(&self) -> Option<String> {
+        match self {
+            Api::Standalone(regs) => {
+                let r = regs.iter().enumerate().filter_map(|(i, z)| z.as_ref().map(|z| format!("{}={}:{}", i, fmt_ref(z.root()), z.node_count()))).collect::<Vec<_>>().join(",");
+                Some(format!("R[{}]", r))
+            }
+            _ => None,
+        }
+    }
+}
+
+/// Guard of the harness itself: iterating / operating on a table with a forward or dangling child
+/// (possible only if gc or get_or_create is broken) can loop forever or exhaust memory. Such a state is
+/// reported (`MALFORMED-TABLE`, then the dump for the C07 judge) and the scenario is abandoned.
+fn arena_safe(ar: &ZddArena, regs: &[Option<ZddHandle>]) -> bool {
+    let nodes = ar.verif_nodes();
+    let ok_child = |own: usize, r: ZddRef| match r { ZddRef::Node(i) => (i as usize) < own, _ => true };
+    nodes.iter().enumerate().all(|(i, (_, lo, hi))| ok_child(i, *lo) && ok_child(i, *hi))
+        && regs.iter().all(|h| h.map_or(true, |h| ok_child(nodes.len(), h.root())))
 }
 
 fn fam_members(mask: u32, nvars: u32) -> Vec<Vec<u32>> {
@@ -108,12 +129,25 @@ fn apply(api: &mut Api, op: &str, d: usize, a: usize, b: usize, v: u32) {
     }
 }
 
+/// run an operation and the `describe` of its destination under catch_unwind: a panic of the real code
+/// (e.g. `get_node` on a dangling id) is the answer `panic`; the caller then abandons the scenario
+fn op_desc(api: &mut Api, d: usize, f: impl FnOnce(&mut Api)) -> (String, bool) {
+    match crate::util::catch(std::panic::AssertUnwindSafe(|| { f(api); api.describe(d) })) {
+        Ok(r) => (r, false),
+        Err(_) => ("panic".to_string(), true),
+    }
+}
+
 fn new_api(arena: bool) -> Api {
     if arena { Api::Arena(ZddArena::new(), vec![None; NREG]) } else { Api::Standalone(vec![None; NREG]) }
 }
 
 fn emit_dump(ctx: &mut Ctx, api: &Api) {
-    if let Some(d) = api.dump() { ctx.case("dump", &d); ctx.count("dump"); }
+    // `dump`: judged for C07 (well-formedness, handles denote the model trees, canonicity).
+    // `tdump` / `zdump`: the same state compared node for node with the replayed TABLE model
+    // (correspondence of Model/ZddTable.lean itself; owned by neither C06 nor C07).
+    if let Some(d) = api.dump() { ctx.case("dump", &d); ctx.count("dump"); ctx.case("tdump", &d); ctx.count("tdump"); }
+    if let Some(d) = api.zdump() { ctx.case("zdump", &d); ctx.count("zdump"); }
 }
 
 fn fam_op_text(d: usize, members: &[Vec<u32>]) -> String {
@@ -128,20 +162,20 @@ fn sweep(ctx: &mut Ctx, arena: bool, nvars: u32, sample: Option<u64>) {
     ctx.directive(if arena { "new arena" } else { "new zdd" });
     for a in 0..nfam {
         let ma = fam_members(a, nvars);
-        op_fam(&mut api, 0, &ma);
-        let r = api.describe(0);
+        let (r, p) = op_desc(&mut api, 0, |api| op_fam(api, 0, &ma));
         ctx.case(&fam_op_text(0, &ma), &r);
+        if p { emit_dump(ctx, &api); return; }
         for b in 0..nfam {
             if let Some(n) = sample { if ctx.rng.below(nfam as u64 * nfam as u64) >= n { continue; } }
             let mb = fam_members(b, nvars);
-            op_fam(&mut api, 1, &mb);
-            let r = api.describe(1);
+            let (r, p) = op_desc(&mut api, 1, |api| op_fam(api, 1, &mb));
             ctx.case(&fam_op_text(1, &mb), &r);
+            if p { emit_dump(ctx, &api); return; }
             let ops: &[&str] = if arena { &["union", "inter", "diff"] } else { &["union", "inter", "diff", "product"] };
             for (k, op) in ops.iter().enumerate() {
-                apply(&mut api, op, 2 + k, 0, 1, 0);
-                let r = api.describe(2 + k);
+                let (r, p) = op_desc(&mut api, 2 + k, |api| apply(api, op, 2 + k, 0, 1, 0));
                 ctx.case(&format!("{} {} 0 1", op, 2 + k), &r);
+                if p { emit_dump(ctx, &api); return; }
                 ctx.count(&format!("{}:{}", if arena { "arena" } else { "zdd" }, op));
             }
         }
@@ -157,15 +191,17 @@ fn sequences(ctx: &mut Ctx, arena: bool, nseq: u64, maxlen: u64) {
         ctx.directive(if arena { "new arena" } else { "new zdd" });
         let len = 3 + ctx.rng.below(maxlen - 2);
         for _ in 0..len {
+            if let Api::Arena(ar, regs) = &api { if !arena_safe(ar, regs) { ctx.count("arena:abandoned-malformed"); break; } }
             let d = ctx.rng.below(NREG as u64) as usize;
             let live: Vec<usize> = (0..NREG).filter(|r| api.has(*r)).collect();
             let k = ctx.rng.below(100);
             let tag = if arena { "arena" } else { "zdd" };
+            let mut panicked = false;
             if live.is_empty() || k < 22 {
                 // constructors
                 match ctx.rng.below(4) {
-                    0 => { apply(&mut api, "base", d, 0, 0, 0); let r = api.describe(d); ctx.case(&format!("base {}", d), &r); }
-                    1 => { let v = ctx.rng.below(5) as u32; apply(&mut api, "single", d, 0, 0, v); let r = api.describe(d); ctx.case(&format!("single {} {}", d, v), &r); }
+                    0 => { let (r, p) = op_desc(&mut api, d, |api| apply(api, "base", d, 0, 0, 0)); ctx.case(&format!("base {}", d), &r); panicked = p; }
+                    1 => { let v = ctx.rng.below(5) as u32; let (r, p) = op_desc(&mut api, d, |api| apply(api, "single", d, 0, 0, v)); ctx.case(&format!("single {} {}", d, v), &r); panicked = p; }
                     _ => {
                         // family from 1-4 members, possibly unsorted with duplicates (from_set must sort+dedup)
                         let n = 1 + ctx.rng.below(4);
@@ -175,7 +211,7 @@ fn sequences(ctx: &mut Ctx, arena: bool, nseq: u64, maxlen: u64) {
                             let m: Vec<u32> = (0..l).map(|_| ctx.rng.below(5) as u32).collect();
                             ms.push(m);
                         }
-                        op_fam(&mut api, d, &ms); let r = api.describe(d); ctx.case(&fam_op_text(d, &ms), &r);
+                        let (r, p) = op_desc(&mut api, d, |api| op_fam(api, d, &ms)); ctx.case(&fam_op_text(d, &ms), &r); panicked = p;
                     }
                 }
                 ctx.count(&format!("{}:ctor", tag));
@@ -184,8 +220,8 @@ fn sequences(ctx: &mut Ctx, arena: bool, nseq: u64, maxlen: u64) {
                 let ops: &[&str] = if arena { &["union", "inter", "diff", "diff", "pwo", "pwo"] } else { &["union", "inter", "diff", "diff", "pwo", "product", "product"] };
                 let op = *ctx.rng.pick(ops);
                 let v = ctx.rng.below(5) as u32;
-                apply(&mut api, op, d, a, b, v);
-                let r = api.describe(d);
+                let (r, p) = op_desc(&mut api, d, |api| apply(api, op, d, a, b, v));
+                panicked = p;
                 if op == "pwo" { ctx.case(&format!("pwo {} {} {}", d, a, v), &r); } else { ctx.case(&format!("{} {} {} {}", op, d, a, b), &r); }
                 ctx.count(&format!("{}:{}", tag, op));
             } else if k < 88 {
@@ -193,8 +229,9 @@ fn sequences(ctx: &mut Ctx, arena: bool, nseq: u64, maxlen: u64) {
                 let a = *ctx.rng.pick(&live);
                 let l = ctx.rng.below(5);
                 let q: Vec<u32> = (0..l).map(|_| ctx.rng.below(6) as u32).collect();
-                let ans = match &api { Api::Arena(ar, regs) => ar.contains(regs[a].unwrap(), &q), Api::Standalone(regs) => regs[a].as_ref().unwrap().contains(&q) };
-                ctx.case(&format!("contains {} {}", a, q.iter().map(|x| x.to_string()).collect::<Vec<_>>().join(" ")), &ans.to_string());
+                let ans = crate::util::catch(std::panic::AssertUnwindSafe(|| match &api { Api::Arena(ar, regs) => ar.contains(regs[a].unwrap(), &q), Api::Standalone(regs) => regs[a].as_ref().unwrap().contains(&q) }));
+                panicked = ans.is_err();
+                ctx.case(&format!("contains {} {}", a, q.iter().map(|x| x.to_string()).collect::<Vec<_>>().join(" ")), &ans.map(|b| b.to_string()).unwrap_or_else(|_| "panic".to_string()));
                 ctx.count(&format!("{}:contains", tag));
             } else if let Api::Arena(ar, regs) = &mut api {
                 if ctx.rng.chance(1, 3) {
@@ -205,16 +242,31 @@ fn sequences(ctx: &mut Ctx, arena: bool, nseq: u64, maxlen: u64) {
                     // gc keeping a random subset of the live registers
                     let keep: Vec<usize> = live.iter().copied().filter(|_| ctx.rng.chance(2, 3)).collect();
                     let hs: Vec<ZddHandle> = keep.iter().map(|r| regs[*r].unwrap()).collect();
-                    let (_st, new) = ar.gc(&hs);
+                    let gc_text = format!("gc {}", keep.iter().map(|x| x.to_string()).collect::<Vec<_>>().join(" "));
+                    let new = match crate::util::catch(std::panic::AssertUnwindSafe(|| ar.gc(&hs).1)) {
+                        Ok(n) => n,
+                        Err(_) => { ctx.case(&gc_text, "panic"); emit_dump(ctx, &api); break; }
+                    };
                     for r in regs.iter_mut() { *r = None; }
                     for (i, r) in keep.iter().enumerate() { regs[*r] = Some(new[i]); }
+                    if !arena_safe(ar, regs) {
+                        ctx.case(&format!("gc {}", keep.iter().map(|x| x.to_string()).collect::<Vec<_>>().join(" ")), "MALFORMED-TABLE");
+                        ctx.count("arena:gc-malformed");
+                        emit_dump(ctx, &api);
+                        break;
+                    }
                     let mut res = Vec::new();
-                    for r in &keep { res.push(format!("{}:{}", r, api.describe(*r))); }
-                    ctx.case(&format!("gc {}", keep.iter().map(|x| x.to_string()).collect::<Vec<_>>().join(" ")), &res.join(" ; "));
+                    for r in &keep {
+                        let (dsc, p) = op_desc(&mut api, *r, |_| ());
+                        panicked |= p;
+                        res.push(format!("{}:{}", r, dsc));
+                    }
+                    ctx.case(&gc_text, &res.join(" ; "));
                     ctx.count("arena:gc");
                 }
             }
-            if arena { emit_dump(ctx, &api); }
+            emit_dump(ctx, &api);
+            if panicked { ctx.count(&format!("{}:abandoned-panic", tag)); break; }
         }
     }
 }
